@@ -261,6 +261,61 @@ func (fr *Frame) analyseLoopMods(li *loopInfo) {
 	}
 }
 
+// loopMayAllocate: some instruction of the loop body may create an object.
+func (fr *Frame) loopMayAllocate(li *loopInfo) bool {
+	for b := range li.blocks {
+		if fr.blockMayAllocate(b, 0) {
+			return true
+		}
+	}
+	return false
+}
+
+func (fr *Frame) blockMayAllocate(b *ssa.BasicBlock, depth int) (res bool) {
+	var in ssa.Instruction
+	defer func() {
+		if res && os.Getenv("GOVC_DEBUG") != "" {
+			fmt.Fprintf(os.Stderr, "mayAllocate(depth %d): %v in %s\n", depth, in, b.Parent().Name())
+		}
+	}()
+	for _, in = range b.Instrs {
+		switch x := in.(type) {
+		case *ssa.Alloc:
+			if x.Heap {
+				return true
+			}
+		case *ssa.MakeSlice, *ssa.MakeMap, *ssa.MakeChan, *ssa.MakeClosure, *ssa.Defer, *ssa.Go:
+			return true
+		case *ssa.Call:
+			if b, ok := x.Call.Value.(*ssa.Builtin); ok {
+				switch b.Name() {
+				case "len", "cap", "min", "max", "copy", "delete", "print", "println", "panic", "recover", "ssa:wrapnilchk", "ssa:deferstack":
+					continue
+				}
+				return true
+			}
+			if fr.g.callIsPure(x.Common()) && !typeHasRef(x.Type(), 0, true) {
+				continue
+			}
+			// a library function without a contract is executed in place: look inside
+			if fn := x.Call.StaticCallee(); fn != nil && !x.Call.IsInvoke() && depth < 4 && len(fn.Blocks) > 0 && fr.g.P.contracts[funcKey(fn)] == nil && fn.Pkg != nil && fr.g.P.spkgs[fn.Pkg.Pkg.Name()] == fn.Pkg {
+				inner := false
+				for _, cb := range fn.Blocks {
+					if fr.blockMayAllocate(cb, depth+1) {
+						inner = true
+						break
+					}
+				}
+				if !inner {
+					continue
+				}
+			}
+			return true
+		}
+	}
+	return false
+}
+
 // onlyRead: every use of the address v (a captured variable, or a field/element address derived from it) is a load.
 func onlyRead(v ssa.Value) bool {
 	refs := v.Referrers()
@@ -628,6 +683,10 @@ func (fr *Frame) enterLoop(li *loopInfo, st *State) *State {
 		}
 		g.bumpTop(ns)
 	} else {
+		if fr.loopMayAllocate(li) {
+			g.bumpTop(ns) // earlier iterations may have allocated
+		}
+		headTop := ns.heap.get(g, g.topKey())
 		var keys []string
 		for k := range li.heapKey {
 			keys = append(keys, k)
@@ -637,6 +696,9 @@ func (fr *Frame) enterLoop(li *loopInfo, st *State) *State {
 			oldv := ns.heap.get(g, k)
 			nv := g.declare("lhp", g.heapSorts[k])
 			ns.heap.set(k, nv)
+			if !strings.HasPrefix(k, "G:") {
+				g.heapRefBound(nv, k, headTop)
+			}
 			if refs, ok := fr.loopStoreRefs(li, k, ns); ok {
 				// only objects reached through these (loop-invariant) bases are written: everything else keeps its value
 				r := g.fresh("lr")
@@ -647,7 +709,6 @@ func (fr *Frame) enterLoop(li *loopInfo, st *State) *State {
 				g.assume("(forall ((" + r + " Int)) (! (=> " + and(cs...) + " (= (select " + nv + " " + r + ") (select " + oldv + " " + r + "))) :pattern ((select " + nv + " " + r + "))))")
 			}
 		}
-		g.bumpTop(ns) // earlier iterations may have allocated
 	}
 	// pointers held in havocked locals refer to objects that exist at the loop head
 	for _, a := range allocs {
@@ -881,10 +942,13 @@ func (g *Gen) knownRef(st *State, v string, t types.Type) {
 		for i := 0; i < u.NumFields(); i++ {
 			ft := u.Field(i).Type()
 			switch ft.Underlying().(type) {
-			case *types.Pointer, *types.Slice, *types.Struct:
+			case *types.Pointer, *types.Slice, *types.Struct, *types.Interface:
 				g.knownRef(st, g.S.structField(t, v, i), ft)
 			}
 		}
+	case *types.Interface:
+		g.S.needRef = true
+		g.assumeUnder(st.path, "(<= (iface_ref "+v+") "+st.heap.get(g, g.topKey())+")")
 	case *types.Pointer:
 		g.assumeUnder(st.path, "(<= "+v+" "+st.heap.get(g, g.topKey())+")")
 	case *types.Slice:
